@@ -69,11 +69,12 @@ impl RunCtx {
             );
         }
         let mut replay_paths = Vec::new();
-        let _ = std::fs::create_dir_all(format!("{}/replays", self.root));
+        let replay_dir = std::env::var("VERIF_REPLAY_DIR").unwrap_or_else(|_| format!("{}/replays", self.root));
+        let _ = std::fs::create_dir_all(&replay_dir);
         for v in unknown.iter().take(12) {
             let j = replay_json(&self.prop, &self.profile, v);
             let h = fnv(format!("{}|{}|{}|{}", v.ev, v.input, v.at_enc, v.kind.name()).as_bytes());
-            let path = format!("{}/replays/{}-{:016x}.json", self.root, self.prop, h);
+            let path = format!("{}/{}-{:016x}.json", replay_dir, self.prop, h);
             let _ = std::fs::write(&path, serde_json::to_string_pretty(&j).unwrap());
             println!("VIOLATION property={} replay={}", self.prop, path);
             println!(
